@@ -32,6 +32,12 @@ interface user {
     roundtrip: func(h: r, x: rec) -> tuple<r, v>;
     look: func(h: borrow<r>) -> option<rec>;
 }
+interface other {
+    // types of its own under the names `user` takes from `types`
+    record rec { z: u8 }
+    enum v { p, q }
+    f: func(x: rec) -> v;
+}
 """
 
 
@@ -62,6 +68,10 @@ def worlds():
     add("world-types", "    record pt { x: u32, y: u32 }\n    enum col { red, green }\n    import f: func(p: pt) -> col;\n    export g: func(c: col) -> pt;")
     # inline interfaces using types of a named interface
     add("inline-use", "    import inl: interface {\n        use types.{rec, r};\n        f: func(x: rec) -> r;\n    }\n    export out: interface {\n        use types.{v};\n        g: func() -> v;\n    }")
+    # an interface that `use`s types next to one that defines types of the same names
+    add("user-then-other", "    import user;\n    import other;")
+    add("other-then-user", "    import other;\n    import user;")
+    add("exp-user-other", "    import types;\n    export user;\n    export other;")
     return w
 
 
